@@ -827,11 +827,11 @@ func lemmaCreateThenMapQueue(data []byte, cap uint32) {
 // path the net change pop itself applies to the free counter is 0 on failure and -1 on success
 //@   requires[C02@ledger] b.counter != b.size
 //@   ghost var delta int = 0
-//@   at call sync/atomic.AddInt32#0 ghost delta := delta + ite(a0 == b.size, a1, 0)
-//@   at call sync/atomic.AddInt32#1 ghost delta := delta + ite(a0 == b.size, a1, 0)
-//@   at call sync/atomic.AddInt32#2 ghost delta := delta + ite(a0 == b.size, a1, 0)
-//@   at call sync/atomic.AddInt32#3 ghost delta := delta + ite(a0 == b.size, a1, 0)
-//@   at call sync/atomic.AddInt32#4 ghost delta := delta + ite(a0 == b.size, a1, 0)
+//@   at call? sync/atomic.AddInt32#0 ghost delta := delta + ite(a0 == b.size, a1, 0)
+//@   at call? sync/atomic.AddInt32#1 ghost delta := delta + ite(a0 == b.size, a1, 0)
+//@   at call? sync/atomic.AddInt32#2 ghost delta := delta + ite(a0 == b.size, a1, 0)
+//@   at call? sync/atomic.AddInt32#3 ghost delta := delta + ite(a0 == b.size, a1, 0)
+//@   at call? sync/atomic.AddInt32#4 ghost delta := delta + ite(a0 == b.size, a1, 0)
 //@   exit[C02@ledger] r1 != nil ==> delta == 0 && r0 == nil
 //@   exit[C02@ledger] r1 == nil ==> delta == 0 - 1
 //@   loop 0 invariant[C02@ledger] delta == 0 - 1
@@ -844,6 +844,7 @@ func lemmaCreateThenMapQueue(data []byte, cap uint32) {
 //@   ensures[C01] r1 == nil ==> r0.offsetInShm == b.bufferRegionOffsetInShm + old(b.chain[b.cs]) && r0.isFromShm && r0.readIndex == 0 && r0.writeIndex == 0 && r0.nextSlice == nil
 //@   ensures[C01] r1 == nil ==> r0.cap == *b.capPerBuffer && len(r0.data) == *b.capPerBuffer && sameMem(r0.data, b.bufferRegion, old(b.chain[b.cs]) + 20)
 //@   ensures[C01] r1 == nil ==> sameMem(r0.bufferHeader, b.bufferRegion, old(b.chain[b.cs])) && len(r0.bufferHeader) == 20
+//@   ensures[C01] r1 == nil ==> mem8(r0.bufferHeader, 16) == 2   // handed out: marked in-use and no longer linked into the free chain
 //@   ensures[C01] r1 == nil ==> forall x in [0, len(b.bufferRegion)): x != old(b.chain[b.cs]) + 16 ==> mem8(b.bufferRegion, x) == old(mem8(b.bufferRegion, x))
 //@   ensures[C01,C02] wfList(b)
 //@   loop 0 invariant[C01,C02] i == 0 && oldHead == old(*b.head) && *b.size == old(*b.size) - 1 && remain == old(*b.size) - 1 && remain > 0
